@@ -2472,6 +2472,15 @@ def mutants(corpus: Corpus):
     add("c02-dispatch-loop-skips-first-child", "C02.R1", base, loop.iter if loop else None, "(token.children or [])[1:]", "dispatch loop")
     call = find_node(rc, lambda n: isinstance(n, ast.Call) and isinstance(n.func, ast.Subscript) and unparse(n.func.value) == "self.rules")
     add("c02-dispatch-on-parent", "C02.R1", base, call.args[0] if call else None, "token", "dispatch loop")
+    if loop is not None and len(loop.body) == 1 and isinstance(loop.body[0], ast.If) and call is not None:
+        # the dispatch extracted into a helper that forgets the no-handler warning (one path renders nothing)
+        iff = loop.body[0]
+        ind_m = indent_of(rc, rc.node.body[-1])[:-4]
+        helper = f"\n\n{ind_m}def _dispatch_one(self, child: SyntaxTreeNode) -> None:\n{ind_m}    if {_seg(base, iff.test)}:\n{ind_m}        {_seg(base, call)}"
+        src2 = splice(base.src, rc.node, _seg(base, rc.node).replace(_seg(base, iff), "self._dispatch_one(child)") + helper)
+        out.append(Mutant("c02-dispatch-helper-drops-warning-path", "C02.R1", base.rel, src2, expect="dispatch loop"))
+    else:
+        out.append(("c02-dispatch-helper-drops-warning-path", "dispatch loop body is not a single if/else"))
     fn = find_node(cm, lambda n: isinstance(n, ast.keyword) and n.arg == "move_to_end")
     add("c02-footnote-tail-enabled", "C02.R1", mdit, fn.value if fn else None, "True", "token type footnote_block")
     fl = base.func(R + "render_field_list")
